@@ -35,6 +35,7 @@ RULE += (' Also: a front-end iterator whose __aiter__ hands out the inner iterat
 RULE += (' Also: a refused re-entry of the active scope context inside the block; a stale-group poll tool.')
 RULE += (' Also: a tool running a groupby whose key fails once over the borrowed handle.')
 RULE += (' Also: after a refused close (read pending) the idle handle is closed again and must be dead; degenerate-parameter tools (nlargest 0, nsmallest -1, islice 0) on shared handles.')
+RULE += (' Also: a scope context created over a live handle and entered after the handle was closed; the grouper idiom (one handle at every position).')
 ASSUMPTIONS = ["laziness of the tools themselves is C05's concern; here the stdlib twin predicts how many items a tool takes",
                "athrow is not part of the property's operation list and is not generated"]
 EXHAUSTIVE_SUBSPACES = 'all histories of length <= 3 (thorough: 4) over a 13-operation alphabet'
@@ -204,6 +205,11 @@ TOOLS = {
                      lambda it: zip([7, 8], [7, 8, 9], [7, 8], it, strict=True)),
     "zip3_last": ("iter", lambda h: A.zip([7, 8], [7], h), lambda it: zip([7, 8], [7], it)),
     "zip_twice": ("iter", lambda h: A.zip(h, h), lambda it: zip(it, it)),
+    # the "grouper" idiom: one shared handle at every position
+    "zip_longest_thrice": ("iter", lambda h: A.zip_longest(h, h, h, fillvalue=None), lambda it: itertools.zip_longest(it, it, it, fillvalue=None)),
+    "zip_longest_twice_mixed": ("iter", lambda h: A.zip_longest(h, [7], h), lambda it: itertools.zip_longest(it, [7], it)),
+    "zip_strict_twice": ("iter", lambda h: A.zip(h, h, strict=True), lambda it: zip(it, it, strict=True)),
+    "map_twice": ("iter", lambda h: A.map(lambda a, b: (a, b), h, h), lambda it: map(lambda a, b: (a, b), it, it)),
     "zip_longest3": ("iter", lambda h: A.zip_longest([7], h, [7, 8]), lambda it: itertools.zip_longest([7], it, [7, 8])),
     "map2_last": ("iter", lambda h: A.map(lambda a, b: b, [7, 8], h), lambda it: map(lambda a, b: b, [7, 8], it)),
     "map2_first": ("iter", lambda h: A.map(lambda a, b: a, h, [7, 8]), lambda it: map(lambda a, b: a, it, [7, 8])),
@@ -261,7 +267,11 @@ def gen_history(rng, maxops=12):
         elif r < 0.62:
             ops.append(["reborrow", rng.choice([-1, h])])
             nh += 1
-        elif r < 0.70:
+        elif r < 0.66:
+            # a scope context CREATED over the live handle, which is then closed before the context is entered
+            ops.append(["scope_late", h, rng.choice(["aclose", "aclose_iter"])])
+            nh += 1
+        elif r < 0.72:
             # (how the block is left: falling through, or by an exception / a BaseException raised in it)
             # (... and whether a re-entry of the very same context object is attempted - and refused - in the block)
             ops.append(["scope", h, rng.randint(0, 2), rng.choice(["fall", "fall", "raise", "raise_base"]),
@@ -500,6 +510,37 @@ def run_history(case, stats, scoped=None):
                 parent.append(h)
                 self_closed.add(len(handles) - 1)
                 counters["scopes_over_borrowed_handles"] += 1
+            elif kind == "scope_late":
+                # a scope context created over the live handle; the handle is closed BEFORE the context is entered: what
+                # the scope hands out then is a handle over a closed handle - it yields nothing, sends reach nothing
+                h = op[1] if op[1] < len(handles) else 0
+                if state[h] != "open":
+                    continue
+                ctx = A.scoped_iter(handles[h])
+                if op[2] == "aclose":
+                    await handles[h].aclose()
+                else:
+                    await A.iter(handles[h]).aclose()
+                state[h] = "closed"
+                self_closed.add(h)
+                pos = st.pos
+                async with ctx as sh:
+                    got = [await anext_of(sh)]
+                    if hasattr(sh, "asend"):
+                        try:
+                            got.append(_uid(await sh.asend(None)))
+                        except StopAsyncIteration:
+                            got.append(STOP)
+                if got != [STOP] * len(got) or st.pos != pos:
+                    fail("borrow/closed-handle-still-yields",
+                         f"op {n} {op}: a scope created over the handle and entered after the handle was closed gave {got}; "
+                         f"the underlying went from {pos} to {st.pos} fetched items")
+                    return
+                handles.append(sh)
+                own.append("closed")
+                parent.append(h)
+                self_closed.add(len(handles) - 1)
+                counters["scopes_entered_after_their_handle_was_closed"] += 1
             elif kind == "reborrow":
                 src = under if op[1] < 0 or op[1] >= len(handles) else handles[op[1]]
                 handles.append(A.borrow(src))
